@@ -692,6 +692,31 @@ pub fn run(ctx: &mut Ctx) {
         }
         ops.push(Op::rec(0x16, chunk.clone()));
         ops.push(Op::Reset);
+        // again up to 40 KiB below the cap, then small fragments whose HEADER length field claims 0xffff / 16640 bytes
+        // (the data decides, not the header: they still fit and are buffered), then real ones until the cap refuses
+        {
+            let mut first2 = AHs::Finished(vec![]).to_bytes();
+            first2[1] = 0xff;
+            first2[2] = 0xff;
+            first2[3] = 0xff;
+            first2.extend(r.bytes(rec_len - 4));
+            ops.push(Op::rec(0x16, first2));
+            let mut total2 = rec_len;
+            while total2 + rec_len + 40_000 < MAX {
+                ops.push(Op::rec(0x16, chunk.clone()));
+                total2 += rec_len;
+            }
+            for k in 0..6usize {
+                let d = r.bytes(1 + k * 7);
+                total2 += d.len();
+                ops.push(Op::Rec { ty: 0x16, ver: 0x0303, data: d, len: if k % 2 == 0 { 0xffff } else { 16640 } });
+            }
+            ops.push(Op::Rec { ty: 0x16, ver: 0x0303, data: vec![], len: 0xffff });
+            ops.push(Op::rec(0x16, chunk.clone()));
+            ops.push(Op::rec(0x16, chunk.clone()));
+            ops.push(Op::rec(0x16, chunk.clone()));
+            ops.push(Op::Reset);
+        }
         // fresh behaviour afterwards
         ops.push(Op::rec(0x16, AHs::HelloRequest.to_bytes()));
         if run_history(ctx, "S5", &ops) {
@@ -748,6 +773,62 @@ pub fn run(ctx: &mut Ctx) {
     // fragment around / above 10 MiB (copied without a size check), then continuations — all refused TooLarge,
     // foreign types Tag, nocopy NonEmpty, state unchanged; reset; fresh behaviour
     ctx.floor("s8.histories", 6);
+    // ------------------------------------------------ S11: a LARGE message of each body-carrying handshake kind (around and far above
+    // the record cap: long certificate chains, tickets, key exchanges) defragmented to completion from full-size
+    // records, and then, on the same parser, small fragmented messages of every buffered content type: "after a
+    // completed message it behaves like a fresh parser", whatever the completed message was
+    ctx.floor("s11.histories", 60);
+    ctx.sweep("S11-large-message-then-small", 9 * 7, |ctx, idx| {
+        let mut r = Rng::new(idx ^ 0x511_511);
+        let n = [16000usize, 16630, 16637, 17000, 40000, 70000, 300_000][(idx % 7) as usize];
+        let big: AHs = match idx / 7 {
+            0 => AHs::Certificate(vec![r.bytes(n)]),
+            1 => AHs::Certificate((0..8).map(|_| r.bytes(n / 8)).collect()),
+            2 => AHs::ServerKeyExchange(r.bytes(n)),
+            3 => AHs::ClientKeyExchange(r.bytes(n)),
+            4 => AHs::Finished(r.bytes(n)),
+            5 => AHs::CertificateVerify(r.bytes(n)),
+            6 => AHs::NewSessionTicket { hint: r.u32b(), ticket: r.bytes(n.min(65535)) },
+            7 => AHs::CertificateStatus { ty: 1, blob: r.bytes(n) },
+            _ => AHs::ClientHello(refenc::ACh { version: 0x0303, random: r.bytes(32), sid: vec![], ciphers: vec![0x1301], comp: vec![0], ext: Some(r.bytes(n.min(65535))) }),
+        };
+        let payload = big.to_bytes();
+        let mut ops: Vec<Op> = Vec::new();
+        let step = *r.pick(&[16384usize, 16384, 16640, 9000]);
+        if payload.len() > step {
+            for c in payload.chunks(step) {
+                ops.push(Op::rec(0x16, c.to_vec()));
+            }
+        } else {
+            let c = payload.len() / 2;
+            ops.push(Op::rec(0x16, payload[..c].to_vec()));
+            ops.push(Op::rec(0x16, payload[c..].to_vec()));
+        }
+        // small messages afterwards, each in 2..4 fragments (cut points anywhere incl. inside the headers)
+        for round in 0..6 {
+            let hb = round % 2 == 0;
+            let (p, first) = if hb { hb_payload(&mut r) } else { hs_payload(&mut r, gen::SMALL) };
+            let ty = if hb { 0x18 } else { 0x16 };
+            let kk = r.usize(1, 3);
+            let c = cuts(&mut r, kk, first);
+            for f in split_at(&p, &c) {
+                ops.push(Op::rec(ty, f));
+            }
+            if round == 2 {
+                ops.push(Op::rec(0x17, gen::opaque(&mut r, 100)));
+            }
+            if round == 3 {
+                // and a second large message in between
+                for c in payload.chunks(16384) {
+                    ops.push(Op::rec(0x16, c.to_vec()));
+                }
+            }
+        }
+        if run_history(ctx, "S11", &ops) {
+            ctx.count("s11.histories");
+        }
+        ctx.shape(&("S11", idx / 7, lc(n)));
+    });
     ctx.sweep("S8-giant-first-fragment", 6, |ctx, idx| {
         let n = [MAX - 1, MAX, MAX + 1, MAX + 16384, 1 << 24, (1 << 24) + 3][idx as usize];
         let mut first = match gen::lazy_zeroed(n) {
